@@ -74,7 +74,11 @@ fn zstd_source(_raw_stream: ByteStream, _data_size: ASize) -> Result<Arc<dyn Sou
 
 impl Cluster {
     fn build_plain_reader(&self) -> Result<()> {
+        #[cfg(jubako_verif)]
+        crate::verif::point("cl.build.pre", self.data_size.into_u64(), 0);
         let mut cluster_reader = self.reader.write().unwrap();
+        #[cfg(jubako_verif)]
+        crate::verif::point("cl.build.locked", self.data_size.into_u64(), 0);
         if let ClusterReader::Plain(_) = *cluster_reader {
             return Ok(());
         };
